@@ -612,7 +612,7 @@ func (c *c02Cell) runJobs(jobs []c02Job) {
 			store += "(expire=0)"
 		}
 		cell := fmt.Sprintf("%s|%s|%s|%s|%s|%s", store, c.g.Form.Name, j.Kind, j.Target.Role, j.V.Class, j.V.Bucket)
-		if j.V.Class == "forged-signature" || strings.HasPrefix(j.V.Bucket, "part") {
+		if strings.HasPrefix(j.V.Class, "forged-signature") || strings.HasPrefix(j.V.Bucket, "part") {
 			cell = fmt.Sprintf("%s|%s|%s|%s|%s", store, c.g.Form.Name, j.Kind, j.Target.Role, j.V.Class)
 		}
 		run.Eval(cell)
@@ -823,8 +823,19 @@ func (c *c02Cell) work() {
 			add(P, []*c02Cred{X, A1}, nil, c02PartVariants(X, []*c02Cred{A1})...)
 			add(P, []*c02Cred{X}, nil, c.forged(X, P, nowS, true, otherKeys)...)
 			add(P, []*c02Cred{X}, nil, c.unparsable(X, P)...)
+			add(P, []*c02Cred{X}, nil, c.publicForged(X, P, nowS, true, "", true)...)
 		} else {
 			add(P, []*c02Cred{A1, A2, B}, nil, c02PartVariants(A1, []*c02Cred{A2, B})...)
+		}
+		// --- built from public knowledge only (no secret): payload of a live session (same and new timestamp), random payloads
+		add(P, []*c02Cred{A1}, nil, c.publicForged(A1, P, nowS, true, "", false)...)
+		add(P, []*c02Cred{A1}, nil, c.publicForged(A1, P, nowS, false, "", false)...)
+		{
+			pr := rand.New(rand.NewSource(run.Env.Seed*7919 + int64(len(A1.Full))))
+			f := c02Split3(A1.Full)
+			for _, n := range []int{32, len(f.Value) * 3 / 4} {
+				add(P, []*c02Cred{A1}, nil, c.publicForged(A1, P, nowS, true, base64.URLEncoding.EncodeToString(c02RandBytes(pr, n)), false)...)
+			}
 		}
 		// --- moved to another name
 		add(P, []*c02Cred{A1, csrf1}, nil, c.transplants(A1, csrf1, P, N)...)
@@ -833,6 +844,7 @@ func (c *c02Cell) work() {
 			renamed := c.renamed(A1, t)
 			add(t, []*c02Cred{A1}, nil, c02Variant{Class: "foreign-instance", Bucket: "unmodified", Note: "cookie of the issuer presented under the target's cookie name", Build: func() []c02CK { return renamed.Parts }})
 			add(t, []*c02Cred{A1}, nil, c.forged(renamed, t, nowS, false, otherKeys)...)
+			add(t, []*c02Cred{A1}, nil, c.publicForged(renamed, t, nowS, true, "", false)...)
 			if t.Name != P.Name {
 				add(t, []*c02Cred{A1}, nil, c02Variant{Class: "foreign-instance", Bucket: "issuer-names", Note: "cookie of the issuer under the issuer's names", Build: func() []c02CK { return A1.Parts }})
 			}
@@ -872,7 +884,9 @@ func (c *c02Cell) work() {
 			add(P, []*c02Cred{csrf1, csrfX}, csrf1, c02SpliceVariants(csrf1, csrfX, "live-expired")...)
 			add(P, []*c02Cred{csrfX, csrf1}, csrfX, c02SpliceVariants(csrfX, csrf1, "expired-live")...)
 			add(P, []*c02Cred{csrfX}, csrfX, c.forged(csrfX, P, nowS, true, otherKeys)...)
+			add(P, []*c02Cred{csrfX}, csrfX, c.publicForged(csrfX, P, nowS, true, "", false)...)
 		}
+		add(P, []*c02Cred{csrf1}, csrf1, c.publicForged(csrf1, P, nowS, true, "", false)...)
 		add(P, []*c02Cred{csrf1, csrf2, A1}, csrf1, c.csrfTransplants(csrf1, csrf2, A1)...)
 		for _, t := range []*c02Inst{S, N} {
 			renamed := c.renamedCSRF(csrf1, t)
@@ -1025,6 +1039,48 @@ func (c *c02Cell) forged(cr *c02Cred, t *c02Inst, nowS int64, retime bool, other
 			}})
 		}
 	}
+	return out
+}
+
+// publicForged: credentials built from PUBLIC knowledge only — a payload (the value of an issued credential re-used, or
+// random bytes when payload != ""), the current time (or the original timestamp), and a signature anybody can compute
+// without the cookie secret (c02PublicSigs). The proxy cannot have produced them: Must be rejected, also when the
+// payload is that of a live session. wide=false: the constructions keyed with the name / empty key / unkeyed only.
+func (c *c02Cell) publicForged(cr *c02Cred, t *c02Inst, nowS int64, retime bool, payload string, wide bool) []c02Variant {
+	f := c02Split3(cr.Full)
+	if !f.OK {
+		return nil
+	}
+	ts, value, what := f.TS, f.Value, "issued-value"
+	if retime {
+		ts = strconv.FormatInt(nowS, 10)
+	}
+	if payload != "" {
+		value, what = payload, "random-value"
+	}
+	macName := t.Name
+	if cr.Kind == "csrf" {
+		macName = cr.Parts[0].Name
+	}
+	names := cr.Parts
+	genuine := c02Sig(t.Secret, macName, value, ts)
+	var out []c02Variant
+	for label, sig := range c02PublicSigs(macName, value, ts, c.run.Env.Thorough()) {
+		if sig == genuine || sig == f.Sig {
+			continue
+		}
+		if !wide && !c.run.Env.Thorough() && !(strings.HasSuffix(label, "/b64url") && (strings.Contains(label, "key=name/") || strings.Contains(label, "key=empty/") || strings.Contains(label, "key=unkeyed/"))) {
+			continue
+		}
+		s := value + "|" + ts + "|" + sig
+		out = append(out, c02Variant{Must: true, Class: "forged-signature-public-knowledge", Bucket: label, Note: fmt.Sprintf("%s retimed=%v signature computable without the secret: %s", what, retime, label), Build: func() []c02CK {
+			if len(names) == 1 {
+				return []c02CK{{names[0].Name, s}}
+			}
+			return c02Like(names, t.Name, s)
+		}})
+	}
+	sort.Slice(out, func(i, j int) bool { return out[i].Bucket < out[j].Bucket })
 	return out
 }
 
